@@ -201,6 +201,82 @@ def decide_site(out, oid, ex, body, fn_name, template, key, what, pre=None, pref
     return paths
 
 
+def lifting_index_bounds(out, eng):
+    """B.lifting_index_bounds: the lifting passes destructure trees whose shape the analysed bytecode chooses (the number of
+    words under a Concat, of topics under a Log, ...).  Every function and closure of src/tc/lift is explored from an
+    ARBITRARY input tree with vectors of arbitrary length (callees havoc'd): no path may index a vector out of bounds or
+    reach an arithmetic / array-bounds assert.  `unwrap` / `expect` on havoc'd results are not counted (the havoc loses the
+    guard that protects them)."""
+    # functions nested in a method (`fn run(..) { fn lift_x(..) {..} }`) are dumped under their bare name right after the
+    # items of their file: attribute them to the file of the nearest preceding function that names one
+    fns, last_file = [], ""
+    for n, f in sorted(eng.fns.items(), key=lambda kv: kv[1].line):
+        m = re.search(r"(src/[\w/]+\.rs)", n)
+        if m:
+            last_file = m.group(1)
+        if last_file.startswith("src/tc/lift/") and "::test" not in n and not re.search(r"::(fmt|clone|eq|hash|assert_fields_are_eq)$", n):
+            fns.append((n if m else "%s::<%s>" % (n, last_file), f))
+    t0 = time.time()
+    explored, skipped, flagged = 0, [], []
+    local = set(id(f) for _, f in fns)
+    by_name = {}
+    for _, f in fns:
+        by_name[f.name] = f
+    for n, f in fns:
+        ex = eng.explorer(havoc_unknown=True, max_visits=3, max_seconds=30)
+
+        def body(ctx, f=f):
+            ctx.vec_index_panics = True
+            # only the lifting code itself (and field accessors) is followed; folding, transforming, sizing ... are havoc'd
+            ctx.inline_filter = lambda name: name in by_name or bool(re.search(r"::data$|::provenance$|::instruction_pointer$", name))
+            args = []
+            for i, (_, t) in enumerate(f.args):
+                t = t.strip()
+                if t.startswith("&mut "):
+                    args.append(Ref(Cell(Lazy(t[5:], "a%d" % i), "a%d" % i), (), True))
+                elif t.startswith("&"):
+                    args.append(Ref(Cell(Lazy(re.sub(r"^&('\w+ )?", "", t), "a%d" % i), "a%d" % i), ()))
+                else:
+                    args.append(Lazy(t, "a%d" % i))
+            return ctx.run_fn(f, args), ctx
+        try:
+            paths = ex.explore(body)
+        except Exception as e:       # budget / unsupported construct: the function is outside the encoded set, and said so
+            skipped.append("%s (%s)" % (re.sub(r"<impl at (src/[^:]+):[^>]*>", r"<\1>", n)[-70:], str(e)[:50]))
+            continue
+        explored += 1
+        for p in paths:
+            # an arithmetic assert fed by a havoc'd callee result is not evidence (the havoc drops the relation between
+            # the operands); vector indexing is modelled exactly (index < symbolic length)
+            havocd = any(e and e[0] == "havoc" for e in (getattr(getattr(p, "ctx", None), "events", None) or []))
+            if p.kind == "panic" and ("index out of bounds" in p.msg or ("MIR assert" in p.msg and not havocd)):
+                s = z3.Solver()
+                for c in p.pc:
+                    s.add(c)
+                if s.check() == z3.sat:
+                    flagged.append((n, p.msg))
+                    break
+    dt = time.time() - t0
+    out.extra["lifting_index_bounds"] = {"functions_explored": explored, "not_encoded": skipped}
+    oid = "B.lifting_index_bounds"
+    if not flagged:
+        out.obligation(oid, "mirsmt", "holds", dt, witness=explored > 0, functions=explored, not_encoded=len(skipped),
+                       note="no lifting function / closure can index a vector out of bounds or reach an arithmetic assert, for any input tree")
+        if explored == 0:
+            out.inconc("%s: no lifting function could be explored" % oid)
+        return
+    where = re.sub(r"<impl at (src/[^:]+):[^>]*>", r"<\1>", flagged[0][0])
+    what = "%s can panic for some input tree: %s" % (where, flagged[0][1][:90])
+    confirmed, rep = native.scenario(out, "idiom_corpus_panics", {})
+    if confirmed:
+        out.obligation(oid, "mirsmt", "violated", dt, witness=True, note=what, replay=rep)
+        out.violation(C.Violation(key="lifting-pass-panics:%s" % where.split("::")[-2 if where.endswith("}") else -1], what="%s: %s" % (oid, what),
+                                  replay={"engine": "mirsmt", "native": rep}))
+    else:
+        out.obligation(oid, "mirsmt", "sat-unconfirmed", dt, witness=False, note=what, replay=rep)
+        out.inconc("%s: %s — no program of the idiom corpus panics through analyze(); undecided" % (oid, what))
+
+
 def run(out, tier):
     eng = mirrun.load_engine(out)
     out.functions += ["vm::state::memory::Memory::load_slice", "tc::lift::sub_word::insert_sub_words",
@@ -220,5 +296,6 @@ def run(out, tier):
     out.extra["assert_site_census"] = {"total": len(sites), "decided": sum(1 for s in sites if s["status"] != "not encoded"), "sites": sites}
     site_load_slice(out, eng)
     site_sub_word(out, eng)
+    lifting_index_bounds(out, eng)
     names = [n for n in KANI_PANIC_FREE if n in catalog.H]
     kani.run_family(out, names + ["known_twin"], expect_fail=["known_twin"], tier=tier, classes=("panic",))
